@@ -163,6 +163,25 @@ impl SubCheck for C06 {
                         items.push(user);
                     }
                 }
+                // a third of the trees: an alias of an alias of a struct, used as variant payloads (Go decides pointer-ness by
+                // resolving the chain), and one item present twice with identical text (e.g. one per cfg branch): how the copies
+                // are spread over files must not matter
+                if assign[1] % 3 == 0 {
+                    items.push(Item::new("ChainBase", Kind::Struct { shape: Shape::Named(vec![Field::new("v", Ty::Prim(Prim::U8))]), rename_all: None }));
+                    items.push(Item::new("ChainInner", Kind::Alias { ty: Ty::user("ChainBase") }));
+                    items.push(Item::new("ChainOuter", Kind::Alias { ty: Ty::user("ChainInner") }));
+                    items.push(Item::new("ChainOutermost", Kind::Alias { ty: Ty::user("ChainOuter") }));
+                    let mut a = Variant::unit("Outer");
+                    a.payload = Payload::Newtype(Ty::user("ChainOutermost"));
+                    let mut b = Variant::unit("Inner");
+                    b.payload = Payload::Newtype(Ty::user("ChainInner"));
+                    items.push(Item::new("ChainUser", Kind::Enum { variants: vec![a, b, Variant::unit("Nothing")], rename_all: None, tag: Some("type".into()), content: Some("content".into()) }));
+                }
+                if assign[2] % 3 == 0 {
+                    if let Some(dup) = items.iter().find(|i| !matches!(i.kind, Kind::Const { .. }) && i.name != "Quad4").cloned() {
+                        items.push(dup);
+                    }
+                }
                 Case { ws: ws::distribute(items, &slots, &assign), lang, folder_mode, resplits, resplit_slots }
             })
             .boxed()
